@@ -49,27 +49,121 @@ func (c *Chain) CancelStream(n int) {
 		if hs.Rejected {
 			continue
 		}
-		raw, fk := c.Rec.StateRaw(hs.PreID)
-		pre, err := DecodeState(c.Spec, fk, raw)
-		if err != nil {
+		c.cancelSweepBlock(hs, true)
+	}
+	c.cancelCoverage(r)
+}
+
+// opKinds of an honest block (what its processing loops poll the context for).
+func opKinds(b *Block) []string {
+	var ks []string
+	add := func(k string, n int) {
+		if n > 0 {
+			ks = append(ks, k)
+		}
+	}
+	add("att", len(b.Attestations))
+	add("pslash", len(b.ProposerSlashings))
+	add("aslash", len(b.AttesterSlashings))
+	add("dep", len(b.Deposits))
+	add("exit", len(b.VoluntaryExits))
+	add("blschg", len(b.BLSChanges))
+	if len(b.Deposits) > 0 && len(b.VoluntaryExits) == 0 {
+		ks = append(ks, "dep_noexit") // the deposit loop holds the last poll of a phase0 block
+	}
+	if len(b.Attestations) > 0 && len(b.Deposits) == 0 && len(b.VoluntaryExits) == 0 {
+		ks = append(ks, "att_last")
+	}
+	if len(ks) == 0 {
+		ks = append(ks, "empty")
+	}
+	return ks
+}
+
+// cancelCoverage: at least one cancellation sweep, with result validation AND without it, for every (fork, operation kind)
+// the chain has a block for. Blocks are chosen greedily so that few sweeps cover all pairs.
+func (c *Chain) cancelCoverage(r interface{ Intn(int) int }) {
+	need := map[string]bool{}
+	for _, h := range c.Honest {
+		if h.Rejected {
 			continue
 		}
-		sb := hs.Blk.Signed()
-		base := RunTransition(c.Spec, pre, nil, sb, hs.Blk.Fork, true, hs.Engine, -1, -1)
-		post := base.Verdict()
-		var baseBytes []byte
-		if base.Post != nil {
-			baseBytes = EncodeState(base.Post)
-			post = c.Rec.State(base.Post)
+		for _, k := range opKinds(h.Blk) {
+			// this chain's share of the run-wide coverage: its assigned forks, and always phase0 deposits without exits
+			if c.CoverForks[h.Blk.Fork] || (h.Blk.Fork == Phase0 && k == "dep_noexit") {
+				need[h.Blk.Fork.String()+"."+k] = true
+			}
 		}
-		line := c.Rec.Line("trans %s %s 1 %s %s kind=honest ctx=fresh replay=1", hs.PreID, hs.BlkID, hs.Engine, post)
-		c.recordEngine(line, base.Engine)
-		for k := 0; k <= base.Polls; k++ {
-			res := RunTransition(c.Spec, pre, nil, sb, hs.Blk.Fork, true, hs.Engine, -1, k)
-			c.cancelLine(hs.PreID, hs.BlkID, hs.Blk.Slot, k, base.Polls, &res, baseBytes, "engine="+hs.Engine+" validate=1")
-		}
-		c.Stats.Inc("cancel_sweeps_trans")
 	}
+	for len(need) > 0 {
+		best, bestN := -1, 0
+		for i, h := range c.Honest {
+			if h.Rejected {
+				continue
+			}
+			n := 0
+			for _, k := range opKinds(h.Blk) {
+				if need[h.Blk.Fork.String()+"."+k] {
+					n++
+				}
+			}
+			// prefer blocks with few operations (short sweeps) among equally useful ones
+			if n > bestN {
+				best, bestN = i, n
+			}
+		}
+		if best < 0 {
+			break
+		}
+		hs := c.Honest[best]
+		for _, k := range opKinds(hs.Blk) {
+			key := hs.Blk.Fork.String() + "." + k
+			if need[key] {
+				delete(need, key)
+				c.Stats.Inc("cancel_cover." + key)
+			}
+		}
+		c.cancelSweepBlock(hs, true)
+		c.cancelSweepBlock(hs, false)
+		c.Stats.Inc("cancel_sweeps_coverage_blocks")
+	}
+}
+
+// cancelSweepBlock repeats one honest transition (line re-emitted) and cancels it at every poll.
+func (c *Chain) cancelSweepBlock(hs HonestStep, validate bool) {
+	raw, fk := c.Rec.StateRaw(hs.PreID)
+	pre, err := DecodeState(c.Spec, fk, raw)
+	if err != nil {
+		return
+	}
+	v := 0
+	if validate {
+		v = 1
+	}
+	key := fmt.Sprintf("%s|%s|%d", hs.PreID, hs.BlkID, v)
+	if c.cancelDone == nil {
+		c.cancelDone = map[string]bool{}
+	}
+	if c.cancelDone[key] {
+		return
+	}
+	c.cancelDone[key] = true
+	sb := hs.Blk.Signed()
+	base := RunTransition(c.Spec, pre, nil, sb, hs.Blk.Fork, validate, hs.Engine, -1, -1)
+	post := base.Verdict()
+	var baseBytes []byte
+	if base.Post != nil {
+		baseBytes = EncodeState(base.Post)
+		post = c.Rec.State(base.Post)
+	}
+	line := c.Rec.Line("trans %s %s %d %s %s kind=honest ctx=fresh replay=1", hs.PreID, hs.BlkID, v, hs.Engine, post)
+	c.recordEngine(line, base.Engine)
+	for k := 0; k <= base.Polls; k++ {
+		res := RunTransition(c.Spec, pre, nil, sb, hs.Blk.Fork, validate, hs.Engine, -1, k)
+		c.cancelLine(hs.PreID, hs.BlkID, hs.Blk.Slot, k, base.Polls, &res, baseBytes, fmt.Sprintf("engine=%s validate=%d", hs.Engine, v))
+	}
+	c.Stats.Inc("cancel_sweeps_trans")
+	c.Stats.Inc(fmt.Sprintf("cancel_sweeps_trans_validate%d", v))
 }
 
 func (c *Chain) cancelLine(pre, blk string, target common.Slot, k, total int, res *RunResult, baseBytes []byte, tags string) {
@@ -115,12 +209,35 @@ func (c *Chain) EngineStream(n int) {
 		return
 	}
 	c.Rec.Comment(fmt.Sprintf("C18 stream: engine verdict sweeps on %d steps", n))
-	for i := 0; i < n+len(zeroHash); i++ {
+	// always: one payload-bearing block of every fork that has an engine (bellatrix, capella, deneb)
+	var perFork []HonestStep
+	for f := Bellatrix; f <= Deneb; f++ {
+		if !c.CoverForks[f] {
+			continue // the chains of a run share this: every engine fork is swept by at least two quick chains
+		}
+		var cand []HonestStep
+		for _, h := range withPayload {
+			if h.Blk.Fork == f && !h.ZeroHashMerge {
+				cand = append(cand, h)
+			}
+		}
+		if len(cand) > 0 {
+			perFork = append(perFork, cand[r.Intn(len(cand))])
+		}
+	}
+	if n > len(perFork) {
+		n -= len(perFork)
+	} else {
+		n = 0
+	}
+	for i := 0; i < n+len(zeroHash)+len(perFork); i++ {
 		var hs HonestStep
 		if i < len(zeroHash) {
 			// always: the merge-transition block whose payload has block_hash = 0
 			hs = zeroHash[i]
 			c.Stats.Inc("engine_sweeps_zero_hash_merge_block")
+		} else if i < len(zeroHash)+len(perFork) {
+			hs = perFork[i-len(zeroHash)]
 		} else {
 			hs = withPayload[r.Intn(len(withPayload))]
 		}
@@ -138,9 +255,13 @@ func (c *Chain) EngineStream(n int) {
 			mode string
 			at   int
 		}
-		vs := []variant{{"none", -1}, {"invalid", -1}, {"error", -1}}
+		vs := []variant{{"none", -1}, {"invalid", -1}, {"error", -1}, {"errortrue", -1}}
+		if i >= len(zeroHash) && i < len(zeroHash)+len(perFork) {
+			// guaranteed per-fork sweep: the all-calls modes behave like engine_at=0, keep only the positional ones
+			vs = vs[:1]
+		}
 		for j := 0; j < ncalls; j++ {
-			vs = append(vs, variant{"invalid", j}, variant{"error", j})
+			vs = append(vs, variant{"invalid", j}, variant{"error", j}, variant{"errortrue", j})
 		}
 		for _, v := range vs {
 			res := RunTransition(c.Spec, pre, nil, sb, hs.Blk.Fork, true, v.mode, v.at, -1)
@@ -167,6 +288,7 @@ func (c *Chain) EngineStream(n int) {
 			line := c.Rec.Line("trans %s %s 1 %s %s %s rule=%s", hs.PreID, hs.BlkID, v.mode, post, tag, RuleClass(res.Err))
 			c.recordEngine(line, res.Engine)
 			c.Stats.Inc("engine_fault_records")
+			c.Stats.Inc("engine_fault." + hs.Blk.Fork.String() + "." + v.mode)
 		}
 		c.Stats.Inc("engine_sweeps")
 	}
